@@ -12,7 +12,7 @@ import mirprop          # noqa: E402
 ASSUMPTIONS = [
     "scope: ONLY 'closing a connection … completes every pending … datagram, open and accept future with an error instead of leaving it "
     "hanging', at the level of compio-quic/src/connection.rs: ConnectionState::{terminate, close, wake}, wake_all_streams, "
-    "ConnectionInner::{state, try_state}, Connection::{poll_recv_datagram, poll_open_stream, poll_accept_stream}, and of "
+    "wake_stream (the worker's reaction to a per-stream event), ConnectionInner::{state, try_state}, Connection::{poll_recv_datagram, poll_open_stream, poll_accept_stream}, and of "
     "send_stream.rs / recv_stream.rs: SendStream::{stopped, execute_poll_write}, RecvStream::{received_reset, execute_poll_read}, from MIR; "
     "quinn-proto is not executed (its queries answer nothing / something by choice)",
     "the list of ConnectionState's fields is parsed from the struct definition in the source on every run; every field whose type mentions "
@@ -22,7 +22,8 @@ ASSUMPTIONS = [
     "terminate drains, it is woken and its next poll returns the stored error) or follows it (try_state returns the error before "
     "anything is registered); the check decides both halves, one call each",
     "NOT covered: everything else in C16 — ordered exactly-once delivery, finish / end-of-stream, flow control, datagrams not interfering "
-    "(all quinn-proto + real UDP sockets + the connection worker); endpoint close; the worker noticing the close",
+    "(all quinn-proto + real UDP sockets + the connection worker); endpoint close; the worker noticing the close; which table the worker's "
+    "event match picks for each quinn-proto event (inside the run coroutine, not executed)",
 ]
 
 
